@@ -42,9 +42,9 @@ func init() {
 func C06(tier string) int {
 	return RunHX(HXCheck{
 		Prop: "C06", Level: "model_checking", Scopes: []string{"c06-life", "c06-nested"},
-		Rule: "breadth-first enumeration of all programs within the bound (writers with page-freeing bodies, readers of every age opening/closing before, between and during write transactions, rollbacks, reopen with the other freelist backend / sync setting, nested bucket delete/move); every WriteAt issued to the data file is checked at the moment it is issued against the page sets (tree, overflow, freelist pages as decoded by boltfmt when that version was committed) of the newest committed state and of every open reader's state, and against the meta-slot rule; a state is a distinct exact state key",
+		Rule:        "breadth-first enumeration of all programs within the bound (writers with page-freeing bodies, readers of every age opening/closing before, between and during write transactions, rollbacks, reopen with the other freelist backend / sync setting, nested bucket delete/move); every WriteAt issued to the data file is checked at the moment it is issued against the page sets (tree, overflow, freelist pages as decoded by boltfmt when that version was committed) of the newest committed state and of every open reader's state, and against the meta-slot rule; a state is a distinct exact state key",
 		Assumptions: []string{"page sets come from the independent decoder at commit time", "a write that leaves every byte of a protected page unchanged is counted, not flagged"},
-		Quick: 100 * time.Second, Thorough: 25 * time.Minute,
+		Quick:       100 * time.Second, Thorough: 25 * time.Minute,
 	}, tier)
 }
 
@@ -52,9 +52,9 @@ func C06(tier string) int {
 func C10(tier string) int {
 	return RunHX(HXCheck{
 		Prop: "C10", Level: "model_checking", Scopes: []string{"c10-life"},
-		Rule: "breadth-first enumeration of all programs within the bound (overwrite-heavy write transactions, every pattern of up to 2 readers opening and closing between and during them, rollbacks, reopen); oracle at every writer begin: no allocatable page belongs to a version an open reader or the newest state needs, and with no reader open nothing is left pending; after every commit with no reader open: pending pages are a subset of pages(previous version) minus pages(new version) and Stats agrees with the allocator",
+		Rule:        "breadth-first enumeration of all programs within the bound (overwrite-heavy write transactions, every pattern of up to 2 readers opening and closing between and during them, rollbacks, reopen); oracle at every writer begin: no allocatable page belongs to a version an open reader or the newest state needs, and with no reader open nothing is left pending; after every commit with no reader open: pending pages are a subset of pages(previous version) minus pages(new version) and Stats agrees with the allocator",
 		Assumptions: []string{"page sets from the independent decoder", "the unbounded-growth clause is decided only up to the explored horizon (DESIGN.md 7)"},
-		Quick: 100 * time.Second, Thorough: 25 * time.Minute,
+		Quick:       100 * time.Second, Thorough: 25 * time.Minute,
 	}, tier)
 }
 
@@ -62,8 +62,8 @@ func C10(tier string) int {
 func C12(tier string) int {
 	return RunHX(HXCheck{
 		Prop: "C12", Level: "model_checking", Scopes: []string{"c12-flat", "c12-life", "c12-nested"},
-		Rule: "breadth-first enumeration of all programs within the bound; at every transaction boundary the file is decoded by boltfmt (explicit little-endian offsets of the published version-2 layout, own FNV-1a) and its logical content must equal the reference model (which the API dump is compared with as well), both meta pages must validate with the right slot/txid parity, page size and flags; plus the golden-file corpus of the pinned build",
+		Rule:        "breadth-first enumeration of all programs within the bound; at every transaction boundary the file is decoded by boltfmt (explicit little-endian offsets of the published version-2 layout, own FNV-1a) and its logical content must equal the reference model (which the API dump is compared with as well), both meta pages must validate with the right slot/txid parity, page size and flags; plus the golden-file corpus of the pinned build",
 		Assumptions: []string{"boltfmt shares no code with bbolt"},
-		Quick: 100 * time.Second, Thorough: 25 * time.Minute,
+		Quick:       100 * time.Second, Thorough: 25 * time.Minute,
 	}, tier)
 }
